@@ -10,6 +10,7 @@ import traceback
 import z3
 
 from . import locate, solve
+from . import seqs as Q
 from .api import Registry, parse_expr
 from .calls import eval_spec, spec_state
 from .engine import Engine, Obligation, _container, _m
@@ -112,8 +113,7 @@ def _verify(E, reg, qualname, rep, ghosts):
         if isinstance(ty, TRef):
             st.assume(E.born(v.t) <= 0)
             # dynamic class is a subclass of the declared one
-            rs = getattr(E, "rec_sub", None) or z3.Function("rec_sub", z3.IntSort(), z3.IntSort(), z3.BoolSort())
-            E.rec_sub = rs
+            rs = E.rec_sub
             st.assume(rs(E.cls_of(v.t), z3.IntVal(E.cls_id(ty.cls))))
         if isinstance(ty, TList) and isinstance(ty.elem, TRef):
             i = z3.Int(E.fresh_name("i"))
@@ -161,6 +161,8 @@ def _verify(E, reg, qualname, rep, ghosts):
                     raise OutsideSubset(f"return value {res!r} does not fit declared type {rty}: {e}")
             frame = dict(entry_frame)
             frame["result"] = res
+            for lname, binds in c.lemmas:
+                lemma_instance(E, reg, lname, binds, s, frame)
             for i, (lab, e) in enumerate(c.ensures):
                 g = eval_spec(E, e, s, frame, old=entry)
                 _ob(E, s, f"post#{i}", g, lab, clause=e)
@@ -285,10 +287,12 @@ def _frame_obligations(E, c, s, entry, entry_frame, tag):
 def _discharge_all(E, rep):
     axioms = E.axioms_now(wf=False)
     both = E.tier == "thorough"
+    rec_defs = getattr(E, "rec_defs", [])
     timeout = solve.QUICK_MS * (6 if both else 1)
     for o in E.obls:
         if o.status is None:
-            r = solve.discharge(axioms, o.pc, o.goal, timeout_ms=timeout, both=both, wf_axioms=E.wf_axioms)
+            pc = list(o.pc) + solve.unfold_instances(rec_defs, list(o.pc) + [o.goal])
+            r = solve.discharge(axioms, pc, o.goal, timeout_ms=timeout, both=both, wf_axioms=E.wf_axioms)
             o.status, o.backend, o.secs, o.reason = r.status, r.backend, r.secs, r.reason
             if r.status == "refuted":
                 if getattr(o, "tainted", None):
@@ -320,3 +324,60 @@ def _model_text(m):
             pass
     lines.sort()
     return "\n".join(lines)[:6000]
+
+
+# =================================================================================================
+# lemmas proved by induction over a natural-number parameter (z3 does no induction: base and step are two obligations)
+def verify_lemma(reg, lem, tier="quick"):
+    name = lem["name"]
+    rep = FunctionReport("lemma:" + name)
+    t0 = time.time()
+    E = Engine(reg, tier)
+    E.cur = "lemma:" + name
+    try:
+        st = State()
+        for g, t in getattr(reg, "ghosts", {}).items():
+            st.ghost[g] = E.fresh(E.U.parse(t), "ghost0_" + g)
+        frame = {}
+        for n, t in lem["params"].items():
+            ty = E.U.parse(t)
+            frame[n] = E.fresh(ty, "l_" + n)
+        kname = lem["induction"]
+        k = frame[kname]
+        for r in lem.get("requires", []):
+            st.assume(eval_spec(E, r, st, frame))
+        base_frame = dict(frame)
+        base_frame[kname] = SVal(z3.IntVal(0), INT)
+        g0 = eval_spec(E, lem["statement"], st, base_frame)
+        o = Obligation(f"lemma:{name}/base", "lemma:" + name, "lemma-base", st.pc, g0)
+        o.tainted, o.clause = [], lem["statement"]
+        E.obls.append(o)
+        s2 = st.copy()
+        s2.assume(k.t >= 0)
+        s2.assume(eval_spec(E, lem["statement"], s2, frame))
+        step_frame = dict(frame)
+        step_frame[kname] = SVal(k.t + 1, INT)
+        g1 = eval_spec(E, lem["statement"], s2, step_frame)
+        o = Obligation(f"lemma:{name}/step", "lemma:" + name, "lemma-step", s2.pc, g1)
+        o.tainted, o.clause = [], lem["statement"]
+        E.obls.append(o)
+        _discharge_all(E, rep)
+    except OutsideSubset as e:
+        rep.error, rep.error_kind = f"outside-subset: {e}", "undecided"
+    except Exception as e:
+        rep.error, rep.error_kind = "crash: " + "".join(traceback.format_exception(e))[-3000:], "crash"
+    rep.assumptions = sorted(E.assumptions)
+    rep.dropped = sorted(E.dropped)
+    rep.secs = time.time() - t0
+    return rep
+
+
+def lemma_instance(E, reg, name, bindings, st, frame):
+    """assume a proved lemma at the given argument expressions (evaluated in `frame`)"""
+    lem = next(l for l in reg.lemmas if l["name"] == name)
+    fr = {}
+    for n in lem["params"]:
+        fr[n] = E.ev1p(parse_expr(bindings[n]), spec_state(E, st, frame))
+        fr[n] = E.coerce(fr[n], E.U.parse(lem["params"][n]), st)
+    st.assume(z3.Implies(fr[lem["induction"]].t >= 0, eval_spec(E, lem["statement"], st, fr)))
+    E.assumptions.add(f"lemma {name} (proved by induction in this run: obligations lemma:{name}/base, /step)")
